@@ -20,7 +20,7 @@ import (
 
 func init() {
 	property("C18",
-		"Static conformance of the no-crash / termination / error-location mechanisms: (a) the only reachable panic is the invalid-UTF-8 panic in the lexer and its guard implies an invalid encoding (RuneError with width 1); no unchecked type assertion, no integer division, log.Fatal only in main; (b) every token loop of the parser consumes a token on every path of an iteration and cannot continue at exhausted input (abstract evaluation with every window token = EOF, callee summaries 'errors at EOF'); every lexer loop reads a character per iteration and its guard is false at end of input; other loops are ranges or bounded counters; (c) every index/slice expression is discharged by a dominating comparison (range key, i < len, len > 0, i == len-1, next = i+1 < len) or by a reviewed exemption naming one function and operand; map updates target maps created by the same component; (d) every error returned by a repo function is returned or tested, and the failure branch returns a non-nil error (except the two environment callees whose failure is by design only logged); (e) error ranges are ordered (start token is the current or an earlier captured token) and no error is built from a synthesised or possibly unassigned token; (f) the environment-error flag only ever enables an error return or a log line, and lint construction equals normal construction with the flag off; (g, h) every lexer arm consumes a character and token consumption does not depend on environment or data; (i) the token-window vocabulary the loop rules rely on is what it says (nextToken shifts the window by one, xTokenIs tests its own slot, expectPeek advances once exactly on a match); a pointer result of a fallible call is looked into only after its error was tested; counters of counter loops move on every back edge. NOT decided: stack depth for pathologically nested input, the wall-clock bound, FormatText's string-offset loop. Lazily initialised pointer fields are set on every path before use (C18.j); allocation sizes are bounded by the input (C18.k); every parser error is located (C18.e); every recursive cycle of the parser consumes a token and counter bounds are exit tests (C18.b). Across the components: every tree pointer the emitter dereferences untested is set wherever the parser builds the node, an optional one under the pairing flag the emitter tests (C18.l); index expressions are bounded below as well as above (C18.c); the set of rejection messages, their site counts and the token kinds accepted at 'expected one of' rejections are the reviewed catalogue /verif/rejections.json (C18.m: a new reason to reject a program is a change of every property's scope).",
+		"Static conformance of the no-crash / termination / error-location mechanisms: (a) the only reachable panic is the invalid-UTF-8 panic in the lexer and its guard implies an invalid encoding (RuneError with width 1); no unchecked type assertion, no integer division, log.Fatal only in main; (b) every token loop of the parser consumes a token on every path of an iteration and cannot continue at exhausted input (abstract evaluation with every window token = EOF, callee summaries 'errors at EOF'); every lexer loop reads a character per iteration and its guard is false at end of input; other loops are ranges or bounded counters; (c) every index/slice expression is discharged by a dominating comparison (range key, i < len, len > 0, i == len-1, next = i+1 < len) or by a reviewed exemption naming one function and operand; map updates target maps created by the same component; (d) every error returned by a repo function is returned or tested, and the failure branch returns a non-nil error (except the two environment callees whose failure is by design only logged); (e) error ranges are ordered (start token is the current or an earlier captured token) and no error is built from a synthesised or possibly unassigned token; (f) the environment-error flag only ever enables an error return or a log line, and lint construction equals normal construction with the flag off; (g, h) every lexer arm consumes a character and token consumption does not depend on environment or data; (i) the token-window vocabulary the loop rules rely on is what it says (nextToken shifts the window by one, xTokenIs tests its own slot, expectPeek advances once exactly on a match); a pointer result of a fallible call is looked into only after its error was tested; counters of counter loops move on every back edge. NOT decided: stack depth for pathologically nested input, the wall-clock bound, FormatText's string-offset loop. Lazily initialised pointer fields are set on every path before use (C18.j); allocation sizes are bounded by the input (C18.k); every parser error is located (C18.e); every recursive cycle of the parser consumes a token and counter bounds are exit tests (C18.b). Across the components: every tree pointer the emitter dereferences untested is set wherever the parser builds the node, an optional one under the pairing flag the emitter tests (C18.l); index expressions are bounded below as well as above (C18.c); the set of rejection messages, their site counts and the token kinds accepted at 'expected one of' rejections are the reviewed catalogue /verif/rejections.json (C18.m: a new reason to reject a program is a change of every property's scope). A failed call is never followed by a success (C18.n): on the side of a test where an error a call handed back is not nil, no way leads to a successful return unless the error was handed on or the process ended (lint mode's tolerated environment failures apart), and a use of an error that stands in a dead arm (`if false`) is no use. Rejections are raised under the reviewed kinds of fact (C18.m guards: something is empty, a lookup failed, an option is on).",
 		[]string{"unicode.IsLetter(0) = unicode.IsDigit(0) = unicode.IsSpace(0) = false (the lexer's own predicates are evaluated at 0 from their definitions)", "once the lexer has returned EOF it returns EOF forever (readChar at end of input leaves ch = 0 and changes no position)", "exemptions listed in /verif/exemptions.json (each names one function and operand with a reason)", "configuration values (command_config.json) are outside the property's quantifier"},
 		"C18.a", "C18.b", "C18.c", "C18.d", "C18.e", "C18.f", "C18.g", "C18.h", "C18.i", "C16.c", "C12.a", "C12.b", "C01.c", "C01.d", "C19.b", "C16.d", "C18.j", "C18.k", "C13.a", "C13.b", "C14.d", "C18.l", "C18.m", "C14.a", "C07.a", "C04.f", "C11.a", "C01.e", "C18.n")
 
